@@ -172,4 +172,52 @@ theorem runPipeline_ok_iff (c : Ctx) (r : Relations) (cmds : List Command) (st :
       simp only [Except.ok.injEq, exists_eq', true_and]
       exact ih (applyEffect st eff)
 
+/-- The selection after a pipeline is a sublist of the initial one (programs are only ever removed,
+their relative order is kept). -/
+theorem runPipeline_sublist (c : Ctx) (r : Relations) (cmds : List Command) (st s : State)
+    (h : runPipeline c r st cmds = .ok s) : s.selected.Sublist st.selected := by
+  induction cmds generalizing st with
+  | nil => simp only [runPipeline, foldE] at h; cases h; exact List.Sublist.refl _
+  | cons cmd t ih =>
+    simp only [runPipeline, foldE] at h
+    rw [runCommand_effect] at h
+    cases he : commandEffect c r cmd with
+    | error e => rw [he] at h; cases h
+    | ok eff =>
+      rw [he] at h
+      exact (ih (applyEffect st eff) h).trans List.filter_sublist
+
+/-- Two sublists of a duplicate-free list with the same members are the same list. -/
+theorem sublist_ext {α} {l l1 l2 : List α} (hn : l.Nodup) (h1 : l1.Sublist l) (h2 : l2.Sublist l)
+    (h : ∀ x, x ∈ l1 ↔ x ∈ l2) : l1 = l2 := by
+  induction l generalizing l1 l2 with
+  | nil => cases h1; cases h2; rfl
+  | cons a t ih =>
+    rw [List.nodup_cons] at hn
+    cases h1 with
+    | cons _ h1' =>
+      cases h2 with
+      | cons _ h2' => exact ih hn.2 h1' h2' h
+      | cons_cons _ h2' =>
+        exact absurd (h1'.subset ((h a).mpr List.mem_cons_self)) hn.1
+    | cons_cons _ h1' =>
+      cases h2 with
+      | cons _ h2' =>
+        exact absurd (h2'.subset ((h a).mp List.mem_cons_self)) hn.1
+      | cons_cons _ h2' =>
+        rename_i u v
+        congr 1
+        refine ih hn.2 h1' h2' fun x => ?_
+        have hx := h x
+        simp only [List.mem_cons] at hx
+        constructor
+        · intro hu
+          rcases hx.mp (Or.inr hu) with rfl | hv
+          · exact absurd (h1'.subset hu) hn.1
+          · exact hv
+        · intro hv
+          rcases hx.mpr (Or.inr hv) with rfl | hu
+          · exact absurd (h2'.subset hv) hn.1
+          · exact hu
+
 end Paroxy.Filter
